@@ -927,20 +927,24 @@ Definition union_mode (s : st) : list N * bool * st :=
   else if cur_is s T_DISTINCT then (s_DISTINCT, false, next s)
   else ([], false, s).
 
-(* the skipping branch of parseParenthesizedSelect (parser.go:7911-7924): structural in the tokens.
-   [depth] >= 1; returns the tokens with the closing parenthesis as head (or []) *)
+(* the skipping branch of parseParenthesizedSelect (parser.go:7912-7928): structural in the tokens.
+   `for depth > 0 && !p.currentIs(token.EOF) && !p.currentIs(token.SEMICOLON)`.
+   [depth] >= 1; returns the tokens with the closing parenthesis or the SEMICOLON at which the
+   loop stopped as head (or [] at EOF) *)
 Fixpoint skip_parens (depth : nat) (l : list item) : list item :=
   match l with
   | [] => []
   | x :: r =>
-      let depth' :=
-        if it_tok x =? T_LPAREN then S depth
-        else if it_tok x =? T_RPAREN then Nat.pred depth
-        else depth in
-      match depth' with
-      | O => l
-      | S _ => skip_parens depth' r
-      end
+      if it_tok x =? T_SEMICOLON then l                       (* the statement ends here *)
+      else
+        let depth' :=
+          if it_tok x =? T_LPAREN then S depth
+          else if it_tok x =? T_RPAREN then Nat.pred depth
+          else depth in
+        match depth' with
+        | O => l
+        | S _ => skip_parens depth' r
+        end
   end.
 
 Section Core.
